@@ -334,6 +334,7 @@ type fnCase struct {
 	ValCase        // the request
 	ResSeed uint64 `json:"result_seed"`
 	ResProf int    `json:"result_profile"`
+	Legacy  bool   `json:"legacy_type_names,omitempty"`
 }
 
 func method(v reflect.Value, name string) reflect.Value { return v.MethodByName(name) }
@@ -358,7 +359,8 @@ func checkC07(reg *Registry, c fnCase) pbt.Result {
 	if err != nil {
 		return pbt.Result{Classes: []string{"no-random-result"}}
 	}
-	jw, jr := &basictl.JSONWriteContext{}, &basictl.JSONReadContext{}
+	// every transcoder gets the caller's JSON context: with legacy type names a union is written as "name#tag" by all of them
+	jw, jr := &basictl.JSONWriteContext{LegacyTypeNames: c.Legacy}, &basictl.JSONReadContext{LegacyTypeNames: c.Legacy}
 	var rest, j, back []byte
 	// TL1 -> JSON -> TL1
 	if e := call("ReadResultTL1WriteResultJSON", func() { rest, j, err = fn.ReadResultTL1WriteResultJSON(jw, r1, nil) }); e != nil {
@@ -435,7 +437,7 @@ func checkC07(reg *Registry, c fnCase) pbt.Result {
 		if !out[1].IsNil() || !eq(out[0].Bytes(), r1) {
 			return pbt.Fail("%s: typed ReadResultTL1+WriteResultTL1 gives %s, transcoders expect %s (err %v)", c.Item, hexHead(out[0].Bytes()), hexHead(r1), out[1].Interface())
 		}
-		if wj := method(fv, "WriteResultJSON"); wj.IsValid() && wj.Type().NumIn() == 2 {
+		if wj := method(fv, "WriteResultJSON"); !c.Legacy && wj.IsValid() && wj.Type().NumIn() == 2 { // the typed writer takes no context: default names
 			if e := call("typed WriteResultJSON", func() { out = wj.Call([]reflect.Value{reflect.ValueOf([]byte(nil)), ret.Elem()}) }); e != nil {
 				return pbt.Fail("%s: %v", c.Item, e)
 			}
@@ -466,7 +468,7 @@ func propC07(t *testing.T, reg *Registry) {
 		return
 	}
 	pbt.Run(t, "function-results/"+reg.SetName, perType(len(items), 300, 3000), func(rt *rapid.T) fnCase {
-		c := fnCase{ValCase: genVal(rt, items, false), ResSeed: rapid.Uint64().Draw(rt, "rseed"), ResProf: rapid.IntRange(0, 6).Draw(rt, "rprofile")}
+		c := fnCase{ValCase: genVal(rt, items, false), ResSeed: rapid.Uint64().Draw(rt, "rseed"), ResProf: rapid.IntRange(0, 6).Draw(rt, "rprofile"), Legacy: rapid.IntRange(0, 2).Draw(rt, "legacy") == 0}
 		c.Mut = 0
 		return c
 	}, func(c fnCase) pbt.Result { return checkC07(reg, c) })
